@@ -76,10 +76,14 @@ class TxInput:
         self,
         txid: str,
         txout_index: int,
-        script_sig=Script([]),
+        script_sig=None,
         sequence: str | bytes = DEFAULT_TX_SEQUENCE,
     ) -> None:
         """See TxInput description"""
+
+        # a fresh empty script per input (a default object would be shared)
+        if script_sig is None:
+            script_sig = Script([])
 
         # expected in the format used for displaying Bitcoin hashes
         self.txid = txid
